@@ -1,4 +1,6 @@
 import TarsModel.Proofs.TotalWitness
+import TarsModel.Model.SkipIter
+import TarsModel.Proofs.SkipIterSim
 
 /-!
 # C05 — Decoder totality
@@ -25,11 +27,15 @@ target, every input.
   entries) at most what it consumed, and any decode at most `(nest + 1)` times the input length
   (`nest` = deepest nesting of unfilled slices).  As found, 6 bytes requested 2^31 − 1 elements
   (`C05_alloc_counterexample_asFound`).
-* **Stack** (`C05_depth_le`, `C05_depth_linear_witness`, `C05_depth_unbounded`): still VIOLATED
-  (D12): the Go call depth of the skip recursion is bounded by the input length and this is
-  attained: `n` bytes `0x0A` give depth `n`, so stack use is unbounded in the input (10 MiB of
-  `0x0A` ⇒ fatal stack overflow).  This is the only clause of `C05_full` that fails
-  (`C05_decode_safe_holds`, `C05_full_violated`).
+* **Stack** (D12 fixed, commit f252a72): `skipField`/`SkipToStructEnd` are now a loop over an
+  explicit stack (`Model/SkipIter.lean`), whose recursive predecessor (`Model/Wire.lean`) remains
+  the SPECIFICATION.  `C05_full` asks that the explicit stack never holds more than
+  `remaining + 1` entries (heap, linear in the input); that bound (`SkipStackBounded`) is being
+  proved with the equivalence `skipFieldIter = skipField` in `Proofs/SkipIter*.lean`, and
+  `C05_full_of_stack_bound` derives `C05_full` from it.  The theorems `C05_depth_*_asFound` are
+  about the recursion depth of the specification = the Go call depth of the code AS FOUND: bounded
+  by the input length and attained (`n` bytes `0x0A` give depth `n`), which is the documented D12
+  (10 MiB of `0x0A` ⇒ fatal stack overflow before the fix).
 
 Not in this file: the UDP handler's `req[4:]` on datagrams shorter than 4 bytes (D9) is transport
 code outside `Model/Wire.lean`/`Model/Schema.lean`.
@@ -46,11 +52,16 @@ def C05_decode_safe : Prop :=
     (decStructA env name old r).2.alloc ≤ ((decStructA env name old r).2.nest + 1) * r.data.size ∧
     (∀ v, (decStructA env name old r).1.1 = .ok v → (decStructA env name old r).2.alloc ≤ r.data.size)
 
-/-- The property at full strength, on the model: `C05_decode_safe`, and a call depth bounded
-    independently of the input.  The first part holds (`C05_decode_safe_holds`); the stack clause
-    is false (`C05_full_violated`, D12). -/
+/-- the explicit stack of the iterative `skipField` (heap, not goroutine stack) never holds more
+    than one entry per remaining input byte, plus one -/
+def SkipStackBounded : Prop :=
+  ∀ (ty : Nat) (r : Reader), maxStackFields r.iterFuel ty [] r ≤ r.remaining + 1
+
+/-- The property at full strength, on the model of the code as it is: `C05_decode_safe`
+    (proved: `C05_decode_safe_holds`), and skipping uses no call stack but an explicit stack
+    bounded linearly by the input (`C05_full_of_stack_bound`). -/
 def C05_full : Prop :=
-  C05_decode_safe ∧ ∃ D, ∀ (r : Reader), structEndDepth r ≤ D
+  C05_decode_safe ∧ SkipStackBounded
 
 /-! ## Termination: the fuel is never exhausted -/
 
@@ -179,37 +190,35 @@ theorem C05_bad_length_rejected (env : Env) (f tag : Nat) (req : Bool) (e : Ty) 
   ⟨fun h => decVar_vec_checkfail env f tag req e old hs hl h,
    fun h => decVar_arr_toolong env f tag req n e old hs hl h⟩
 
-/-! ## Stack depth (D12) -/
+/-! ## Recursion depth of the specification = call depth of the code as found (D12) -/
 
 /-- the depth-instrumented skip family computes the original results -/
-theorem C05_depth_instrument_faithful (f ty : Nat) (n : Int) (r : Reader) :
+theorem C05_depth_instrument_faithful_asFound (f ty : Nat) (n : Int) (r : Reader) :
     (skipFieldD f ty r).1 = skipField f ty r ∧ (skipElemsD f n r).1 = skipElems f n r ∧
     (skipToStructEndD f r).1 = skipToStructEnd f r :=
   ⟨(skipD_eq f).1 ty r, (skipD_eq f).2.1 n r, (skipD_eq f).2.2 r⟩
 
 /-- Go call depth (in `skipField` frames) is at most the number of remaining input bytes
     (`+ 1` for the entry frame of `skipField` itself) -/
-theorem C05_depth_le (ty : Nat) (r : Reader) :
+theorem C05_depth_le_asFound (ty : Nat) (r : Reader) :
     skipDepth ty r ≤ r.remaining + 1 ∧ structEndDepth r ≤ r.remaining :=
   ⟨(skipD_le r.fuel).1 ty r, (skipD_le r.fuel).2.2 r⟩
 
 /-- … and this is attained: `n` bytes `0x0A` (nested StructBegin) give depth exactly `n` below
-    `SkipToStructEnd` and `n + 1` for `skipField(StructBegin)`.  Stack use is therefore unbounded
+    `SkipToStructEnd` and `n + 1` for `skipField(StructBegin)`.  Stack use of the code as found was therefore unbounded
     in the input: no depth `D` bounds all inputs. -/
-theorem C05_depth_linear_witness (n : Nat) :
+theorem C05_depth_linear_witness_asFound (n : Nat) :
     structEndDepth (Reader.mk0 (nestBytes n)) = n ∧
     skipDepth tyStructBegin (Reader.mk0 (nestBytes n)) = n + 1 ∧
     (nestBytes n).length = n :=
   ⟨structEndDepth_nest n, skipDepth_nest n, by simp [nestBytes]⟩
 
-theorem C05_depth_unbounded : ¬ ∃ D, ∀ r : Reader, structEndDepth r ≤ D := by
+theorem C05_depth_unbounded_asFound : ¬ ∃ D, ∀ r : Reader, structEndDepth r ≤ D := by
   intro ⟨D, h⟩
   have := h (Reader.mk0 (nestBytes (D + 1)))
   rw [structEndDepth_nest] at this
   omega
 
-/-- the full property fails, and only because of the stack clause -/
-theorem C05_full_violated : ¬ C05_full := fun h => C05_depth_unbounded h.2
 
 /-! ## Allocation (D11 fixed) -/
 
@@ -253,12 +262,32 @@ theorem C05_alloc_counterexample_asFound :
     AsFound.vecMake 0 true (Reader.mk0 hugeLenInput) = (.ok 2147483647, ⟨hugeLenInput.toArray, 6⟩) :=
   ⟨rfl, asFound_hugeMake⟩
 
-/-! ## The value part of the property holds; only the stack clause fails -/
+/-! ## The full property -/
 
 theorem C05_decode_safe_holds : C05_decode_safe := by
   intro env name old r hwf hsh
   exact ⟨C05_no_panic hwf hsh r, C05_alloc env name old r,
     fun v hv => (C05_alloc_ok env name old r v hv).2⟩
+
+/-- `C05_full` from the stack bound of the iterative skip (to be discharged by
+    `skipIter_stack_bound` of `Proofs/SkipIter*.lean`: then `C05_full` is unconditional) -/
+theorem C05_full_of_stack_bound (h : SkipStackBounded) : C05_full :=
+  ⟨C05_decode_safe_holds, h⟩
+
+/-- the stack bound of the iterative skip (`Proofs/SkipIterSim.lean`, invariant `SkipIter.stack_bound`) -/
+theorem C05_skip_stack_bounded : SkipStackBounded := by
+  intro ty r
+  have h := (SkipIter.stack_bound r.iterFuel).1 ty [] r
+  simpa using h
+
+/-- **C05 in full, on the current tree** (D11 and D12 repaired): unconditional -/
+theorem C05_full_holds : C05_full := C05_full_of_stack_bound C05_skip_stack_bounded
+
+/-- the loop of the current code computes the recursive specification all other C05 theorems are
+    stated over (proved in `Proofs/SkipIterSim.lean`), and never exhausts its fuel -/
+theorem C05_skip_iter_is_spec (ty : Nat) (r : Reader) :
+    skipFieldIter ty r = skipField r.fuel ty r ∧ skipToStructEndIter r = skipToStructEnd r.fuel r :=
+  ⟨SkipIter.skipFieldIter_eq ty r, SkipIter.skipToStructEndIter_eq r⟩
 
 /-! ## Non-vacuity -/
 
@@ -281,6 +310,9 @@ example : skipToNoCheck 0 true (Reader.mk0 C05.hugeLenInput)
     = (.ok (true, tyLIST), ⟨C05.hugeLenInput.toArray, 1⟩) := by rfl
 example : readLen ⟨C05.hugeLenInput.toArray, 1⟩ = (.ok 2147483647, ⟨C05.hugeLenInput.toArray, 6⟩) :=
   C05.hugeLen_readLen
+-- the stack bound on the former D12 witness, small instance by evaluation: 5 nested StructBegin
+example : maxStackFields (Reader.mk0 (nestBytes 5)).iterFuel tyStructBegin [] (Reader.mk0 (nestBytes 5))
+    ≤ (Reader.mk0 (nestBytes 5)).remaining + 1 := by decide
 -- depth witness, small instance by evaluation
 example : structEndDepth (Reader.mk0 (nestBytes 5)) = 5 := by rfl
 
